@@ -12,3 +12,19 @@
 (assert (forall ((t Int) (a S_bsonkit_indexEntry) (b S_bsonkit_indexEntry)) (! (= (entryEqv t a b) (entryEqv t b a)) :pattern ((entryEqv t a b)))))
 (assert (forall ((t Int) (a S_bsonkit_indexEntry) (b S_bsonkit_indexEntry) (c S_bsonkit_indexEntry))
   (! (=> (and (entryEqv t a b) (entryEqv t b c)) (entryEqv t a c)) :pattern ((entryEqv t a b) (entryEqv t b c)))))
+; keysEq(tree, k1, k2): the two key tuples compare equal in every column of the
+; tree's index (BSON equality across numeric types). bsonkit.NewIndex's less
+; orders by the columns and breaks ties by document identity, so two entries are
+; equivalent exactly when their keys are equal in this sense and they belong to
+; the same document (assumed, like the equivalence properties: it is what less
+; being a strict weak order over the BSON total preorder amounts to).
+(define-fun entryKeys ((e S_bsonkit_indexEntry)) Seq_Val (S_bsonkit_indexEntry.keys e))
+(define-fun entryDoc ((e S_bsonkit_indexEntry)) Int (S_bsonkit_indexEntry.doc e))
+(declare-fun keysEq (Int Seq_Val Seq_Val) Bool)
+(assert (forall ((t Int) (a Seq_Val)) (! (keysEq t a a) :pattern ((keysEq t a a)))))
+(assert (forall ((t Int) (a Seq_Val) (b Seq_Val)) (! (= (keysEq t a b) (keysEq t b a)) :pattern ((keysEq t a b)))))
+(assert (forall ((t Int) (a Seq_Val) (b Seq_Val) (c Seq_Val))
+  (! (=> (and (keysEq t a b) (keysEq t b c)) (keysEq t a c)) :pattern ((keysEq t a b) (keysEq t b c)))))
+(assert (forall ((t Int) (a S_bsonkit_indexEntry) (b S_bsonkit_indexEntry))
+  (! (= (entryEqv t a b) (and (keysEq t (S_bsonkit_indexEntry.keys a) (S_bsonkit_indexEntry.keys b)) (= (S_bsonkit_indexEntry.doc a) (S_bsonkit_indexEntry.doc b))))
+   :pattern ((entryEqv t a b)))))
